@@ -11,6 +11,8 @@ package main
 //  pkg.common     the package's own Makefile.common is really included
 //  mk.fragment    a second fragment inside the package directory
 //  quoting        ${VAR:Q} / :M patterns that mkexprchecker.go rewrites
+//  distinfo.header a distinfo file without CVS id and/or the empty line below
+//                 it: fixes that are also made when the file is checked on its own
 
 import (
 	"fmt"
@@ -70,6 +72,25 @@ func c04Augment(r *Rng, tf c04Files, pkgs []string, density int, feats map[strin
 		if _, has := tf[p+"/Makefile.common"]; has && r.Chance(70) {
 			mk = c04InsertBeforeFinalInclude(mk, ".include \"Makefile.common\"")
 			feat("pkg.common-included")
+		}
+		if di, has := tf[p+"/distinfo"]; has && r.Chance(density/2) {
+			// fix sites of a distinfo file that do not need the package
+			ls := strings.SplitAfter(di, "\n")
+			switch r.Intn(3) {
+			case 0:
+				if len(ls) > 2 {
+					tf[p+"/distinfo"] = strings.Join(ls[1:], "") // no CVS id
+				}
+			case 1:
+				if len(ls) > 2 && ls[1] == "\n" {
+					tf[p+"/distinfo"] = ls[0] + strings.Join(ls[2:], "") // no empty line
+				}
+			case 2:
+				if len(ls) > 2 {
+					tf[p+"/distinfo"] = strings.Join(ls[2:], "") // neither
+				}
+			}
+			feat("distinfo.header")
 		}
 		if r.Chance(density / 2) {
 			tf[p+"/fragment.mk"] = lines(cvsID, "", "FRAGMENT_VAR =  a b", "FRAG2=\t$(PREFIX)")
